@@ -298,7 +298,12 @@ func VPH_C05_mnt() {
 	fs := vpStdTree()
 	env := vpServer(fs, ExportOptions{})
 	hd := env.handleFor("/d")
-	spelling := []string{"/d", "/d/", "//d", "/d/.", "/e/../d", "/./d"}[vpChoose("spelling", 0, 5)]
+	spellings := []string{"/d", "/d/", "//d", "/d/.", "/e/../d", "/./d"}
+	spelling := spellings[vpChoose("spelling", 0, 5)]
+	// a real backend resolves all of these to the same directory (vpFS otherwise knows exact paths only)
+	for _, sp := range spellings[1:] {
+		fs.nodes[sp] = fs.nodes["/d"]
+	}
 	countBefore := env.nfs.fileMap.Count()
 	var b vpBuf
 	b.str(spelling)
